@@ -1446,6 +1446,8 @@ func run(c ccase) {
 			retry = runWrongID(c)
 		case "pads":
 			retry = runPads(c)
+		case "glue":
+			runGlue(c) // glue.go
 		case "conc":
 			runConc(c)
 		}
@@ -1493,6 +1495,7 @@ func main() {
 			c.Sub = ""
 			run(c)
 		}
+		keysStop()
 		r.Finish()
 	}
 
@@ -1544,5 +1547,6 @@ func main() {
 			run(ccase{Family: "conc", Kind: "32-clients", CaseSeed: rng.U64(), Format: "both", Chunk: "-"})
 		}
 	}
+	glueFamily(rng.Fork()) // glue.go: the real clientHandler + obfs4 ClientFactory, torn-down outgoing connections
 	r.Finish()
 }
